@@ -167,9 +167,9 @@ def _one_shot_case(rng, word, thumb, mode, te, regs, mpu, sct_extra=None, arch=7
     st['sys']['sctlr'] = G.sctlr_value(m=1, a=0, u=1, te=te, v=0, br=0, ee=ee, **(sct_extra or {}))
     for i, v in enumerate(regs):
         st['R'][('R%dusr' % i) if i < 13 else ('SPusr', 'LRusr')[i - 13]] = v
-    if mode == 'svc':
-        st['R']['SPsvc'] = regs[13]
-        st['R']['LRsvc'] = regs[14]
+    from sim.models.banking import phys
+    for i, v in enumerate(regs):
+        st['R'][phys(i, M.MODES[mode])] = v          # the registers the main mode sees (banked SP/LR, R8-R12 in FIQ mode)
     core = {'config': cfg, 'devices': devices, 'regs': st, 'done_pc': G.CODE + len(code) - (2 if thumb else 4)}
     meta = {'thumb': thumb, 'te': te, 'mode': mode, 'returns': rets, 'main_lo': G.CODE, 'main_hi': G.CODE + len(code), 'handlers': {k: list(v) for k, v in hinfo.items()}}
     return core, meta
@@ -210,7 +210,7 @@ def base_mpu(rng, deny_kind, deny_shape):
 def gen_deny(rng):
     thumb = rng.getrandbits(1)
     te = rng.getrandbits(1)
-    mode = rng.choice(['usr', 'usr', 'sys', 'svc'])
+    mode = rng.choice(['usr', 'usr', 'usr', 'sys', 'svc', 'svc', 'irq', 'fiq', 'und'])
     priv = mode != 'usr'
     kinds = ['none', 'background'] + (['privonly', 'readonly_user'] if not priv else ['priv_readonly']) + ['readonly']
     deny_kind = rng.choice(kinds)
@@ -298,7 +298,8 @@ def _shift_base(core, meta, word, delta):
     regs = dict(core['regs'])
     R = dict(regs['R'])
     mode = meta['mode']
-    name = ('R%dusr' % rn) if rn < 13 else (('SPsvc' if mode == 'svc' else 'SPusr') if rn == 13 else ('LRsvc' if mode == 'svc' else 'LRusr'))
+    from sim.models.banking import phys
+    name = phys(rn, M.MODES[mode])
     R[name] = (R[name] + delta) & 0xFFFFFFFF
     regs['R'] = R
     return dict(core, regs=regs), rn
@@ -541,7 +542,7 @@ def _base_in_list(op, rn):
 def gen_align(rng):
     thumb = rng.getrandbits(1)
     te = rng.getrandbits(1)
-    mode = rng.choice(['usr', 'sys', 'svc'])
+    mode = rng.choice(['usr', 'usr', 'sys', 'svc', 'svc', 'irq', 'fiq', 'und'])
     D = G.DATA + 0x400
     kind = rng.choice(['ldr', 'str', 'ldrh', 'strh', 'ldrd', 'strd', 'ldm', 'stm', 'push', 'pop'] + (['push_w', 'pop_w'] if thumb else []))
     rt, rn = rng.randrange(0, 6), 7
